@@ -61,11 +61,6 @@ theorem body_ff (e : Emu) : evalBody TermBodies.body_ff [] [] e = lf e := by
   simp only [TermBodies.body_ff, TermBodies.stmt_ff]; body_norm
 /-! ### functions of the parameter list: CUP/HVP, DECSTBM, the inline arms SU / SD of csi() -/
 
-theorem len3 (r : List Param) : (((r.length : Int) + 1 + 1 + 1 = 0) = False) ∧ (((r.length : Int) + 1 + 1 + 1 = 1) = False) ∧
-    (((r.length : Int) + 1 + 1 + 1 = 2) = False) ∧ (((r.length : Int) + 1 + 1 = 0) = False) ∧ (((r.length : Int) + 1 + 1 = 1) = False)
-    ∧ (((r.length : Int) + 1 = 0) = False) := by
-  refine ⟨?_, ?_, ?_, ?_, ?_, ?_⟩ <;> (apply eq_false; omega)
-
 theorem body_cup (e : Emu) (pm : List Param) : evalBody TermBodies.body_cup pm [] e = .ok (cup Fixes.current e pm) := by
   simp only [TermBodies.body_cup, TermBodies.stmt_cup, cup]
   rcases pm with _ | ⟨a, _ | ⟨b, _ | ⟨c, r⟩⟩⟩ <;> body_norm
@@ -86,5 +81,53 @@ theorem body_csi_su (e : Emu) (pm : List Param) :
 theorem body_csi_sd (e : Emu) (pm : List Param) :
     evalBody TermBodies.body_csi_sd pm [] e = if pm.length = 5 then .ok e else scrollDown e (dflt1 (ps pm)) := by
   simp only [TermBodies.body_csi_sd, TermBodies.stmt_csi_sd]; body_norm; body_fin
+
+/-! ### bodies with loops over the grid: EL, ECH, ED, IL, DL, DCH, scrollUp, scrollDown -/
+
+theorem body_el (e : Emu) (n : Int) : evalBody TermBodies.body_el [] [n] e = el Fixes.current e n := by
+  simp only [TermBodies.body_el, TermBodies.stmt_el, el, eraseCols]
+  body_norm
+  simp only [min_clamp]
+
+theorem body_ech (e : Emu) (n : Int) : evalBody TermBodies.body_ech [] [n] e = ech e n := by
+  simp only [TermBodies.body_ech, TermBodies.stmt_ech, ech]
+  body_norm; body_fin
+
+theorem body_ed (e : Emu) (n : Int) : evalBody TermBodies.body_ed [] [n] e = ed e n := by
+  simp only [TermBodies.body_ed, TermBodies.stmt_ed, ed]
+  body_norm
+
+theorem body_il (e : Emu) (n : Int) : evalBody TermBodies.body_il [] [n] e = il Fixes.current e n := by
+  simp only [TermBodies.body_il, TermBodies.stmt_il, il, ilClamp, eraseCols]
+  body_norm
+  body_fin
+
+theorem body_dl (e : Emu) (n : Int) : evalBody TermBodies.body_dl [] [n] e = dl Fixes.current e n := by
+  simp only [TermBodies.body_dl, TermBodies.stmt_dl, dl, ilClamp, eraseCols]
+  body_norm
+  body_fin
+
+theorem body_scrollUp (e : Emu) (n : Int) : evalBody TermBodies.body_scrollUp [] [n] e = scrollUp e n := by
+  simp only [TermBodies.body_scrollUp, TermBodies.stmt_scrollUp, scrollUp, eraseCols]
+  body_norm
+  body_fin
+
+theorem body_scrollDown (e : Emu) (n : Int) : evalBody TermBodies.body_scrollDown [] [n] e = scrollDown e n := by
+  simp only [TermBodies.body_scrollDown, TermBodies.stmt_scrollDown, scrollDown, eraseCols]
+  body_norm
+  body_fin
+
+theorem body_dch (e : Emu) (n : Int) : evalBody TermBodies.body_dch [] [n] e = dch e n := by
+  simp only [TermBodies.body_dch, TermBodies.stmt_dch, dch]
+  body_norm
+  simp only [cellCopy_same_row]
+  body_fin
+
+/-! ### coverage -/
+
+theorem bodies_fully_recognised : (covered.all Body.recognised) = true := by decide
+theorem bodies_wf : (covered.all Body.wf) = true := by decide
+/-- every covered body is one of the generated ones -/
+theorem covered_generated : (covered.all fun b => TermBodies.bodies.contains b) = true := by decide
 
 end VaxisModel.Props.C05Bodies
